@@ -67,20 +67,47 @@ package miner
 //@   ensures forall i in 0..len(result) :: result[i] != nil
 //@   modifies nothing
 
+// lookups in the node's own caches: read-only (trusted frames)
+//@ func (*Chain).GetMinerRound
+//@   trusted
+//@   modifies nothing
+//@ func 0chain.net/chaincore/chain.(*Chain).GetBlock
+//@   trusted
+//@   modifies nothing
+//@ func 0chain.net/chaincore/chain.(*Chain).GetMiners
+//@   trusted
+//@   ensures result != nil
+//@   modifies nothing
+//@ func 0chain.net/chaincore/node.(*Pool).GetNode
+//@   trusted
+//@   modifies nothing
+
 // A verification-ticket message is collected / processed only after VerifyTickets accepted that very
 // ticket for the block and round it names.
 //@ func (*Chain).handleVerificationTicketMessage
 //@   prop C31
 //@   requires mc != nil && msg != nil && msg.BlockVerificationTicket != nil
-//@   opaque GetMinerRound, GetMiners, GetNode, GetBlock
+//@   opaque ProcessVerifiedTicket, AddVerificationTickets
 //@   at-call AddVerificationTickets assert[collected-only-after-verification] tk_valid(bvt.VerifierID, bvt.Signature, bvt.BlockID, bvt.Round)
 //@   at-call ProcessVerifiedTicket assert[processed-only-after-verification] tk_valid(bvt.VerifierID, bvt.Signature, bvt.BlockID, bvt.Round)
 // A received block proposal: the tickets that arrive attached to it have been verified by nobody, so
 // they may be merged with the round's tickets and COUNTED towards notarization only if every one of
-// them is a valid signature of a distinct miner of the block's round on the block's hash.
+// them is a valid signature of a distinct miner of the block's round on the block's hash. The check is
+// made on the copies Block.GetVerificationTickets returns right before the merge (same verifier ids and
+// signatures, in order: trusted contract of that accessor), for this block's hash and round.
+//@ func (*Chain).verifyAttachedTickets
+//@   prop C31
+//@   requires mc != nil
+//@   ensures[tickets-verified] result == nil ==> forall i in 0..len(bvts) :: tk_valid(bvts[i].VerifierID, bvts[i].Signature, hash, round)
+//@   ensures[distinct-verifiers] result == nil ==> forall i in 0..len(bvts) :: (forall j in i+1..len(bvts) :: bvts[i].VerifierID != bvts[j].VerifierID)
+//@   modifies nothing
+//@   loop 1 header "for _, vt := range bvts"
+//@   loop 1 invariant verifiers != nil && (forall k in 0..$idx+1 :: (bvts[k].VerifierID in verifiers))
+//@   loop 1 invariant forall i in 0..$idx+1 :: (forall j in i+1..$idx+1 :: bvts[i].VerifierID != bvts[j].VerifierID)
 //@ func (*Chain).processVerifyBlock
 //@   prop C31
 //@   requires mc != nil && b != nil && b.Round >= 0
 //@   opaque Validate, GetCurrentRound, GetMinerRound, getOrCreateRound, AddToRoundVerification, IsVerificationComplete, IsVRFComplete, GetTimeoutCount, GetRoundRandomSeed, GetRandomSeed, AddRoundBlock, checkBlockNotarization, AddNotarizedBlockToRound, updatePreviousBlockNotarization, IsBlockNotarized, MergeVerificationTickets
-//@   at-call MergeVerificationTickets assert[attached-tickets-verified] forall i in 0..len(b.VerificationTickets) :: tk_valid(b.VerificationTickets[i].VerifierID, b.VerificationTickets[i].Signature, b.Hash, b.Round)
-//@   at-call MergeVerificationTickets assert[attached-tickets-from-distinct-verifiers] forall i in 0..len(b.VerificationTickets) :: (forall j in i+1..len(b.VerificationTickets) :: b.VerificationTickets[i].VerifierID != b.VerificationTickets[j].VerifierID)
+//@   at-call verifyAttachedTickets assert[this-blocks-hash-round-and-tickets] $arg2 == b.Hash && $arg3 == b.Round && len(attached) == len(b.VerificationTickets)
+//@   at-call MergeVerificationTickets assert[attached-tickets-verified] $arg1 == b && len(attached) == len(b.VerificationTickets) && (forall i in 0..len(attached) :: tk_valid(attached[i].VerifierID, attached[i].Signature, b.Hash, b.Round))
+//@   at-call MergeVerificationTickets assert[attached-tickets-from-distinct-verifiers] forall i in 0..len(attached) :: (forall j in i+1..len(attached) :: attached[i].VerifierID != attached[j].VerifierID)
